@@ -83,7 +83,7 @@ Lemma sys_members_unfold qk st name s :
     | None =>
         let '(gs, r) := fold_left sm_step (elements (s_used s)) (ss_groups st, Ok ∅) in
         match r with
-        | Ok v => (SS gs (<[ name := Sys (s_base s) (s_used s) (Some v) ]> (ss_systems st)) (ss_default st) (ss_cache st), Ok v)
+        | Ok v => (SS gs (<[ name := Sys (s_base s) (s_used s) (if q_sys_memo_stale qk then Some v else None) ]> (ss_systems st)) (ss_default st) (ss_cache st), Ok v)
         | Err e => (ss_set_groups st gs, Err e)
         end
     end.
@@ -297,6 +297,73 @@ Proof.
   rewrite (base_units_in_unfold r s dest fb B exb HD).
   destruct (conv_factor r B (substitute (s_base s) B)) as [[c exc]|e] eqn:EC; [|discriminate].
   injection HB as _ _ <-. eauto.
+Qed.
+
+(** * Rules solve their equations (repaired inversion) *)
+(** the corrected inversion solves the rule: substituting the root expansion of [new] into the
+    replacement of [old] gives back [old] *)
+Lemma exp_of_fmap_delete (f : Qc → Qc) (B : uc) o k :
+  exp_of (f <$> delete o B) k = if decide (k = o) then 0%Qc else match B !! k with Some v => f v | None => 0%Qc end.
+Proof.
+  unfold exp_of. rewrite lookup_fmap. destruct (decide (k = o)) as [->|N].
+  - rewrite lookup_delete. reflexivity.
+  - rewrite lookup_delete_ne by congruence. destruct (B !! k); reflexivity.
+Qed.
+Lemma inversion_solves (Bn : uc) o vo :
+  UC.wf Bn → Bn !! o = Some vo →
+  uc_mul (uc_pow Bn (1 / vo)%Qc) ((λ v, (- v / vo)%Qc) <$> delete o Bn) = {[ o := 1%Qc ]}.
+Proof.
+  intros W Ho. assert (Hvo : vo ≠ 0%Qc) by (eapply wf_lookup; eassumption).
+  apply uc_ext; [apply wf_mul, wf_pow|apply wf_singleton; discriminate|].
+  intros k. rewrite exp_of_mul, exp_of_pow, exp_of_fmap_delete, exp_of_singleton.
+  destruct (decide (k = o)) as [->|N].
+  - rewrite decide_True by reflexivity. unfold exp_of. rewrite Ho. simpl. field. exact Hvo.
+  - rewrite decide_False by congruence. unfold exp_of. destruct (Bn !! k) as [v|]; simpl; field; exact Hvo.
+Qed.
+
+Lemma rule_entry_old_unfold qk r new o x :
+  rule_entry qk r new (Some o) = Ok x →
+  ∃ fo Bo exo fn Bn exn vo,
+    root_of r {[ o := 1%Qc ]} = Ok (fo, Bo, exo) ∧ Bo = {[ o := 1%Qc ]}
+    ∧ root_of r {[ new := 1%Qc ]} = Ok (fn, Bn, exn) ∧ Bn !! o = Some vo
+    ∧ x = (o, <[ new := (1 / vo)%Qc ]> ((λ v, if q_inv_exponent qk then ((-1) / v)%Qc else (- v / vo)%Qc) <$> delete o Bn)).
+Proof.
+  unfold rule_entry. destruct (root_of r {[ o := 1%Qc ]}) as [[[fo Bo] exo]|e] eqn:E1; [|discriminate]. simpl.
+  destruct (uc_eqb Bo {[ o := 1%Qc ]}) eqn:EQ; simpl; [|discriminate]. apply uc_eqb_spec in EQ.
+  destruct (root_of r {[ new := 1%Qc ]}) as [[[fn Bn] exn]|e] eqn:E2; [|discriminate]. simpl.
+  destruct (Bn !! o) as [vo|] eqn:E3; [|discriminate]. intros H. injection H as <-.
+  exists fo, Bo, exo, fn, Bn, exn, vo. auto.
+Qed.
+
+(** the repaired inversion solves the rule equation: replacing [new] in the replacement of [old]
+    by its root expansion gives [old] back *)
+Theorem rule_entry_solves r new o o' rep :
+  rule_entry repaired r new (Some o) = Ok (o', rep) →
+  ∃ fn Bn exn e,
+    root_of r {[ new := 1%Qc ]} = Ok (fn, Bn, exn) ∧ o' = o ∧ rep !! new = Some e
+    ∧ (UC.wf Bn → Bn !! new = None → uc_mul (uc_pow Bn e) (delete new rep) = {[ o := 1%Qc ]}).
+Proof.
+  intros H. destruct (rule_entry_old_unfold repaired r new o _ H) as (fo & Bo & exo & fn & Bn & exn & vo & _ & _ & E2 & E3 & Hx).
+  injection Hx as -> ->. exists fn, Bn, exn, (1 / vo)%Qc. split; [exact E2|]. split; [reflexivity|].
+  split; [apply lookup_insert|]. intros W Hn. simpl.
+  rewrite delete_insert; [apply inversion_solves; assumption|].
+  rewrite lookup_fmap. destruct (decide (new = o)) as [->|N]; [rewrite lookup_delete; reflexivity|].
+  rewrite lookup_delete_ne by congruence. rewrite Hn. reflexivity.
+Qed.
+
+(** the single form [new]: the root unit is [new] to the inverse power *)
+Theorem rule_entry_single_solves qk r new o rep :
+  rule_entry qk r new None = Ok (o, rep) →
+  ∃ fn exn v, root_of r {[ new := 1%Qc ]} = Ok (fn, {[ o := v ]}, exn) ∧ rep = {[ new := (1 / v)%Qc ]}
+              ∧ (v ≠ 0%Qc → uc_pow {[ o := v ]} (1 / v)%Qc = {[ o := 1%Qc ]}).
+Proof.
+  unfold rule_entry. destruct (root_of r {[ new := 1%Qc ]}) as [[[fn B] exn]|e] eqn:E; [|discriminate]. simpl.
+  destruct (map_to_list B) as [|[o1 v] [|? ?]] eqn:EL; try discriminate. intros H. injection H as <- <-.
+  assert (HB : B = {[ o1 := v ]}).
+  { rewrite <- (list_to_map_to_list B), EL. simpl. rewrite insert_empty. reflexivity. }
+  subst B. exists fn, exn, v. split; [reflexivity|]. split; [reflexivity|].
+  intros Hv. apply uc_ext; [apply wf_pow|apply wf_singleton; discriminate|].
+  intros k. rewrite exp_of_pow, !exp_of_singleton. destruct (decide (o1 = k)); field; exact Hv.
 Qed.
 
 (** F11: the coded inversion of a [new:old] rule with a multi-component new unit does not solve the
